@@ -147,8 +147,8 @@ PROPS = {
                  claim='decoding 100000 nested list32 headers (a 900 KB input) as Value returns (Ok or Err) instead of exhausting an 8 MiB stack',
                  bound='one input family (list32 in list32 ...), depth 100000, main-thread stack 8 MiB'),
             dict(name='alloc_hostile_lengths', target='serde_amqp::{from_slice,from_reader}::<Value|LazyValue>', args=['alloc', '1048576'],
-                 claim='for 16 inputs of <= 14 bytes that declare sizes from 1 MiB to 4 GiB (str32/sym32/vbin32/list32/map32/array32/described), the largest single allocation while decoding stays <= 1 MiB',
-                 bound='16 inputs x 4 entry points; counting global allocator in the probe binary'),
+                 claim='for 35 inputs of <= 18 bytes that declare sizes from 1 MiB to 4 GiB (str32/sym32/vbin32/list32/map32/array32/described) or element COUNTS from 255 to 2^32-2 (list / map / array, also nested as a map key) in front of no data, the largest single allocation while decoding stays <= 1 MiB',
+                 bound='35 inputs x 9 entry points (Value, LazyValue from slice and stream; OrderedMap, Vec, Array, BTreeMap, HashMap targets); counting global allocator in the probe binary'),
         ],
         level_text='Under Verus contracts (unbounded): the reader layer every decoder sits on -- serde_amqp/src/read: the Read trait contract checked against SliceReader and IoReader (peek, next, peek_bytes, read_exact, read_bytes, read_const_bytes, fill_buffer, get_byte_slice) and the LazyValue/byte_buf scanners (read_fixed_bytes, peek_encoded_len, read_encoded_len_bytes, read_primitive_bytes_or_else, read_described_bytes, the format-code and category tables): no panic / overflow / out-of-range index for ANY input and ANY declared length, a length beyond the input is an error, every allocation request that takes its size from the wire is bounded by the input still unread plus 64 KiB, the peek buffer of the io reader only ever holds bytes the stream supplied, the scanners do not recurse. BOUNDED stand-in for the decoders proper (de.rs): Kani/CBMC explores every byte string up to the stated length for each listed type on the real serde_amqp crate with overflow checks and unwinding assertions on; those are listed under bounded_obligations and not counted as proved.',
         assumptions=['bounded (Kani): input length <= 3 bytes per decoder harness (all strings); structure-aware corruptions of longer encodings only by the thorough-tier compound-header harnesses',
